@@ -27,6 +27,18 @@ type RootS { ev: Int }
 type Thing { id: ID! }
 schema { query: RootQ mutation: RootM subscription: RootS }
 """
+# legal but unusual names: a single leading underscore (only `__` is reserved), trailing underscores, digits, one letter
+NAMES_SDL = """
+scalar _Any
+enum _Scope { _A b_ C1 }
+interface _Node { _id: ID }
+type _Entity implements _Node { _id: ID _a(_x: Int = 1): _Any }
+union _U = _Entity | T1
+input _Filter { _f: Int = 2 g: _Scope = _A }
+type T1 { x_: Int }
+type Q { _e(f: _Filter): _Entity u: _U s: _Scope t1: T1 n: _Node }
+schema { query: Q }
+"""
 DEPR_SDL = """
 enum E { A B @deprecated C @deprecated(reason: "no C") }
 interface I { x: Int old: Int @deprecated }
@@ -80,7 +92,7 @@ EXTENSION_LAYOUTS = [
 def seed_models():
     w, _ = seeds.w_schema("quick")
     return [("K", seeds.K), ("W", w), ("mini", S.parse_sdl(MINI_SDL)), ("renamed", S.parse_sdl(RENAMED_SDL)),
-            ("deprecations", S.parse_sdl(DEPR_SDL))]
+            ("deprecations", S.parse_sdl(DEPR_SDL)), ("names", S.parse_sdl(NAMES_SDL))]
 
 
 WAYS = ["string", "file", "files", "directory"]
